@@ -237,10 +237,9 @@ func computeCursors(fns []*ssa.Function) *cursorInfo {
 			if st, fi, _, ok := fieldLoad(v); ok {
 				if rst, rfi, _, ok2 := fieldLoad(root); ok2 && rst == st {
 					ci.fields[st] = fieldCursor{Cur: fi, Str: rfi}
-					return
 				}
 			}
-			ci.reg[v] = root
+			ci.reg[v] = root // the loaded position lives in a register until it is used
 		default:
 			ci.reg[v] = root
 		}
@@ -301,4 +300,49 @@ func computeCursors(fns []*ssa.Function) *cursorInfo {
 		}
 	}
 	return ci
+}
+
+
+// readFields: for every struct type, the fields that fns load (through a
+// field address, or a Field instruction on a loaded struct value).
+func readFields(fns []*ssa.Function) map[*types.Struct]map[int]bool {
+	out := map[*types.Struct]map[int]bool{}
+	mark := func(s *types.Struct, i int) {
+		if s == nil {
+			return
+		}
+		if out[s] == nil {
+			out[s] = map[int]bool{}
+		}
+		out[s][i] = true
+	}
+	for _, fn := range fns {
+		for _, b := range fn.Blocks {
+			for _, ins := range b.Instrs {
+				switch x := ins.(type) {
+				case *ssa.Field:
+					if s, ok := x.X.Type().Underlying().(*types.Struct); ok {
+						mark(s, x.Field)
+					}
+				case *ssa.FieldAddr:
+					s := derefStruct(x.X.Type())
+					// a field address is a read unless it is only stored to
+					onlyStored := true
+					for _, r := range *x.Referrers() {
+						if st, ok := r.(*ssa.Store); ok && st.Addr == x {
+							continue
+						}
+						if _, ok := r.(*ssa.DebugRef); ok {
+							continue
+						}
+						onlyStored = false
+					}
+					if !onlyStored {
+						mark(s, x.Field)
+					}
+				}
+			}
+		}
+	}
+	return out
 }
